@@ -119,6 +119,7 @@ class C17:
             dw.run_client(txs)
             dw.w.run_for(4.0 * len(txs) + 1.0)
             final_states = dw.peek_states()
+            initial_states = dw.initial_states
             live = dw.w.liveness_problems()
             results = list(dw.results)
             responds = list(dw.respond_results)
@@ -169,9 +170,9 @@ class C17:
                           (ti, a["command"], a["address"], a["pointer_type"], a["object_count"], a["sa"], want_cmd, p["addr"], p["direct"], count), mode)
                         break
         if not viol:
-            bad = {k: v for k, v in final_states.items() if v is not None and v != "IDLE"}
+            bad = {k: v for k, v in final_states.items() if v is not None and v != initial_states.get(k)}
             if bad:
-                V("not-idle", "after all transactions: %r" % (bad,), mode)
+                V("not-idle", "after all transactions the state attributes differ from those of fresh (idle) objects: %r" % (bad,), mode)
             if app_dead:
                 V("app-thread-died", "application thread(s) died: %r" % (app_dead,), mode)
         labels = [mode, "size=%d" % size, "single-frame" if nbytes <= 7 else ("8-bytes" if nbytes == 8 else "multi-packet")]
